@@ -13,7 +13,9 @@ import (
 	"strconv"
 	"strings"
 	"sync"
+	"syscall"
 	"time"
+	"unsafe"
 
 	"github.com/woodsbury/decimal128"
 	"github.com/woodsbury/jmespath"
@@ -727,12 +729,103 @@ func judgeStatic(c *GenCtx, ops []Op) []Diff {
 }
 
 // ---------------------------------------------------------------------------------------------
+// C08 / C03: a string conversion that fails inside a foreign value's MarshalJSON is an evaluation-failed fault whatever
+// the foreign error looks like (the model declines foreign values in `to_string`, so this is judged here; the formal
+// counterpart is C03C's `EErr.is (.stringConversion _) _ = false` and Tie.Shape.evaluator_errors_only_is)
+
+type anyIsErr struct{}
+
+func (anyIsErr) Error() string   { return "any-is" }
+func (anyIsErr) Is(error) bool   { return true }
+func (anyIsErr) As(any) bool     { return false }
+func (anyIsErr) Unwrap() []error { return []error{jmespath.ErrInvalidType, jmespath.ErrSyntax} }
+
+type failingMarshal struct{ err error }
+
+func (f failingMarshal) MarshalJSON() ([]byte, error) { return nil, f.err }
+
+func judgeForeignConv() []Diff {
+	var out []Diff
+	errs := []error{anyIsErr{}, jmespath.ErrInvalidType, jmespath.ErrNotANumber, fmt.Errorf("wrapped: %w", jmespath.ErrInvalidValue),
+		fmt.Errorf("plain"), &json.UnsupportedValueError{Str: "x"}}
+	_, nested := jmespath.Search("abs('x')", nil)
+	errs = append(errs, nested)
+	exprs := []string{"to_string(@)", "to_string(a)", "a | to_string(@)", "[a][*].to_string(@)", "join(',', [to_string(a)])", "to_string([a, `1`])", "to_string({k: a})",
+		"map(&to_string(@), [a])", "let $v = a in to_string($v)", "to_string(a) || 'x'", "sort_by([a], &to_string(@))"}
+	for _, fe := range errs {
+		f := failingMarshal{fe}
+		docs := []any{f, map[string]any{"a": f}, map[string]any{"a": []any{f}}, map[string]any{"a": map[string]any{"b": f}}}
+		for _, d := range docs {
+			for _, e := range exprs {
+				ce, err := jmespath.Compile(e)
+				if err != nil {
+					continue
+				}
+				got, _ := searchOutcome(ce, d)
+				// `to_string(a)` on a document without `a` answers "null": only failures are judged
+				if strings.HasPrefix(got, "ok ") {
+					continue
+				}
+				if got != "err evaluation-failed" {
+					out = append(out, jf("foreign-conv", e, fmt.Sprintf("%#v", d), got, "err evaluation-failed",
+						"a string conversion failing inside a foreign MarshalJSON must be an evaluation-failed fault"))
+				}
+			}
+		}
+	}
+	if len(out) > 20 {
+		out = out[:20]
+	}
+	return out
+}
+
+// ---------------------------------------------------------------------------------------------
 // C09: time and allocation budgets on the cost family (sequential, so measurements are not disturbed)
+
+// measure runs one search on an OS thread of its own and reports the outcome, the PROCESSOR time that thread used (a
+// wall clock would measure the load of the machine, not the cost of the call) and the bytes allocated meanwhile. A call
+// that has not returned after 20 s of wall time is a `timeout`.
+func measure(expr string, v any) (string, time.Duration, uint64) {
+	type res struct {
+		got   string
+		cpu   time.Duration
+		alloc uint64
+	}
+	done := make(chan res, 1)
+	go func() {
+		runtime.LockOSThread()
+		defer runtime.UnlockOSThread()
+		var ms runtime.MemStats
+		runtime.ReadMemStats(&ms)
+		a0 := ms.TotalAlloc
+		c0 := threadCPU()
+		got := runSearch(expr, v)
+		c1 := threadCPU()
+		runtime.ReadMemStats(&ms)
+		done <- res{got, c1 - c0, ms.TotalAlloc - a0}
+	}()
+	select {
+	case r := <-done:
+		return r.got, r.cpu, r.alloc
+	case <-time.After(20 * time.Second):
+		return "timeout", 20 * time.Second, 0
+	}
+}
+
+func threadCPU() time.Duration {
+	var ts syscall.Timespec
+	const clockThreadCPUTimeID = 3
+	syscall.Syscall(syscall.SYS_CLOCK_GETTIME, clockThreadCPUTimeID, uintptr(unsafe.Pointer(&ts)), 0)
+	return time.Duration(ts.Sec)*time.Second + time.Duration(ts.Nsec)
+}
 
 func judgeCost(c *GenCtx, ops []Op) []Diff {
 	var out []Diff
-	var ms runtime.MemStats
+	timeouts := 0
 	for _, op := range ops {
+		if timeouts >= 3 {
+			break
+		}
 		if !strings.HasPrefix(op.Family, "cost-") || op.Family == "cost-pad" {
 			continue
 		}
@@ -740,38 +833,23 @@ func judgeCost(c *GenCtx, ops []Op) []Diff {
 		if err != nil {
 			continue
 		}
-		runtime.ReadMemStats(&ms)
-		a0 := ms.TotalAlloc
-		t0 := time.Now()
-		done := make(chan string, 1)
-		go func() { done <- runSearch(string(op.Expr), v) }()
-		var got string
-		select {
-		case got = <-done:
-		case <-time.After(opTimeout):
-			got = "timeout"
+		got, el, alloc := measure(string(op.Expr), v)
+		if got == "timeout" {
+			timeouts++
 		}
-		el := time.Since(t0)
-		runtime.ReadMemStats(&ms)
-		alloc := ms.TotalAlloc - a0
-		// inputs and results are a few dozen bytes: 50 ms and 8 MiB are more than 1000x what they need
+		// inputs and results are a few dozen bytes: 50 ms of processor time and 8 MiB are more than 1000x what they need
 		if got == "timeout" || el > 50*time.Millisecond || alloc > 8<<20 {
 			// re-measure twice before believing it
 			slow := 1
 			for rep := 0; rep < 2 && got != "timeout"; rep++ {
 				v2, _ := parseXJSON(op.Data)
-				runtime.ReadMemStats(&ms)
-				b0 := ms.TotalAlloc
-				t1 := time.Now()
-				runSearch(string(op.Expr), v2)
-				el2 := time.Since(t1)
-				runtime.ReadMemStats(&ms)
-				if el2 > 50*time.Millisecond || ms.TotalAlloc-b0 > 8<<20 {
+				_, el2, alloc2 := measure(string(op.Expr), v2)
+				if el2 > 50*time.Millisecond || alloc2 > 8<<20 {
 					slow++
 				}
 			}
 			if slow == 3 || got == "timeout" {
-				out = append(out, jf(op.Family, string(op.Expr), op.Data, fmt.Sprintf("%s after %v, %d bytes allocated", outcomeClass(got), el, alloc), "≤ 50ms, ≤ 8MiB",
+				out = append(out, jf(op.Family, string(op.Expr), op.Data, fmt.Sprintf("%s after %v of processor time, %d bytes allocated", outcomeClass(got), el, alloc), "≤ 50ms, ≤ 8MiB",
 					"the magnitude of an integer parameter drives running time or allocation"))
 			}
 		}
